@@ -223,7 +223,9 @@ def cfg_text(spec="Spec", constants=None, invariants=(), properties=(), extra=()
 def jtmp(ctx):
     """TLC unpacks its standard modules into java.io.tmpdir on every start: keep that inside the check's work
     directory (removed at the end) instead of littering /tmp."""
-    d = os.path.join(ctx.work, "jtmp")
+    # (callers may pass a reduced view of a Ctx that only has `fresh`: take the directory from a fresh path)
+    base = getattr(ctx, "work", None) or os.path.dirname(ctx.fresh("jtmp", "x"))
+    d = os.path.join(base, "jtmp")
     os.makedirs(d, exist_ok=True)
     return d
 
